@@ -541,7 +541,13 @@ where
             ["eq", a, b] => {
                 let (a, b) = match (num(a), num(b)) { (Some(a), Some(b)) => (a, b), _ => return "bad-op".into() };
                 self.ensure(a.max(b));
-                eq_slots(&self.slots[a], &self.slots[b])
+                eq_slots(&self.slots[a], &self.slots[b], true)
+            }
+            ["eqw", a, b] => {
+                // `==` of the generator type itself, if (and only if) the type implements PartialEq; no fall-back to the cores
+                let (a, b) = match (num(a), num(b)) { (Some(a), Some(b)) => (a, b), _ => return "bad-op".into() };
+                self.ensure(a.max(b));
+                eq_slots(&self.slots[a], &self.slots[b], false)
             }
             ["cycle", s, max] => {
                 // length of the cycle through the current state under native stepping, up to `max`
@@ -889,11 +895,11 @@ impl<'a, T: PartialEq> ProbeHasEq for EqProbe<'a, T> { fn probe_eq(&self) -> Opt
 trait ProbeNoEq { fn probe_eq(&self) -> Option<bool>; }
 impl<'a, T> ProbeNoEq for &EqProbe<'a, T> { fn probe_eq(&self) -> Option<bool> { None } }
 
-fn eq_slots<F>(a: &Slot<F>, b: &Slot<F>) -> String {
+fn eq_slots<F>(a: &Slot<F>, b: &Slot<F>, core_fallback: bool) -> String {
     macro_rules! arms {
         ($($t:ident),*) => {
             match (a, b) {
-                $( (Slot::$t(x), Slot::$t(y)) => match (&EqProbe::<$t>(&**x, &**y)).probe_eq() {
+                $( (Slot::$t(x), Slot::$t(y)) => match (&EqProbe::<$t>(&**x, &**y)).probe_eq().or_else(|| if core_fallback { x.eq_(y) } else { None }) {
                     Some(r) => r.to_string(),
                     None => "unsupported".into(),
                 }, )*
